@@ -78,7 +78,7 @@ CHECK_DEADLOCK FALSE
 """
 
 
-def cfg_gen(fam: str, wraps: int, pair_leafs: list[str], astyles: list[str], pstyles: list[str]) -> str:
+def cfg_gen(fam: str, wraps: int, pair_leafs: list[str], astyles: list[str], pstyles: list[str], cyc: tuple) -> str:
     return f"""SPECIFICATION Spec
 CONSTANTS
  LeafSet = {tla(set(ALL_LEAFS))}
@@ -87,6 +87,10 @@ CONSTANTS
  DStyles = {tla({"camel", "kw", "plain"})}
  PairStyles = {tla(set(pstyles))}
  PairLeafs = {tla(set(pair_leafs))}
+ CycleKinds = {tla(set(cyc[0]))}
+ Cycle3Kinds = {tla(set(cyc[1]))}
+ CycleStyles = {tla(set(cyc[2]))}
+ CycleMixed = {tla(cyc[3])}
  Families = {tla({fam})}
 INVARIANT Laws
 CHECK_DEADLOCK FALSE
@@ -154,9 +158,13 @@ def generate(chk: Check) -> dict[str, Any]:
     gen_runs = [("single", [a], ["plain"]) for a in ("plain", "camel", "kw")] + [
         ("pair", ["plain"], ps) for ps in (["plain", "camel", "kw"], ["fold", "swap"], ["diff", "ident"])
     ]
+    gen_runs.append(("cycle", ["plain"], ["plain"]))
+    cyc = (["list", "dict", "direct", "opt"], ["list", "direct"], ["camel", "kw"], True)
+    if thorough:
+        cyc = (["list", "dict", "direct", "opt"], ["list", "dict", "direct", "opt"], ["camel", "kw", "plain"], False)
     for i, (fam, ast, pst) in enumerate(gen_runs):
         tasks[f"gen{i}"] = lambda fam=fam, ast=ast, pst=pst, i=i: run_tlc(
-            sub_scratch(chk, f"gen{i}"), "Gen_Codec", cfg_gen(fam, wraps, pl, ast, pst), workers=2, timeout=1500, heap="3g"
+            sub_scratch(chk, f"gen{i}"), "Gen_Codec", cfg_gen(fam, wraps, pl, ast, pst, cyc), workers=2, timeout=1500, heap="3g"
         )
     for i, gf in enumerate(graph_fams):
         tasks[f"graphs{i}"] = lambda gf=gf, i=i: run_tlc(sub_scratch(chk, f"gr{i}"), "Gen_CodecGraphs", cfg_graphs(*gf), workers=4, timeout=1500, heap="3g")
@@ -182,7 +190,7 @@ def generate(chk: Check) -> dict[str, Any]:
     chk.cov["defective_design_refuted"] = True
     for i, (fam, ast, pst) in enumerate(gen_runs):
         r = res[f"gen{i}"]
-        lab = f"Gen_Codec[{fam},{'+'.join(ast if fam == 'single' else pst)},wraps<={wraps}] (Laws)"
+        lab = f"Gen_Codec[{fam},{'+'.join(ast if fam == 'single' else pst if fam == 'pair' else cyc[2])},wraps<={wraps}] (Laws)"
         chk.add_tlc(lab, r)
         chk.require(r.ok, f"reference codec violates Laws in {lab}")
         sc = r.printed.get("SCEN", [])
@@ -212,8 +220,29 @@ def generate(chk: Check) -> dict[str, Any]:
 # driving the real code
 
 
+def cyclic_table(table: dict) -> bool:
+    def refs(ty: dict) -> set:
+        return {ty["name"]} if ty["k"] == "cls" else set() if ty["k"] == "leaf" else refs(ty["of"])
+
+    edges = {n: set().union(*[refs(f["ty"]) for f in c["fields"]]) if c["fields"] else set() for n, c in table.items()}
+    for n in table:
+        seen, todo = set(), list(edges[n])
+        while todo:
+            m = todo.pop()
+            if m == n:
+                return True
+            if m not in seen:
+                seen.add(m)
+                todo += list(edges.get(m, ()))
+    return False
+
+
 def drive_rt(chk: Check, scen: list[dict]) -> list[dict]:
-    jobs = [{"id": f"rt{i}", "kind": "rt", "classes": s["classes"], "top": s["top"], "inst": s["inst"], "bad": s["bad"]} for i, s in enumerate(scen)]
+    # class tables whose class graph is cyclic: every instance is decoded first in a fresh converter state
+    jobs = [
+        {"id": f"rt{i}", "kind": "rt", "classes": s["classes"], "top": s["top"], "inst": s["inst"], "bad": s["bad"], "fresh_each": bool(s["cyclic"]) if "cyclic" in s else cyclic_table(s["classes"])}
+        for i, s in enumerate(scen)
+    ]
     res = core.parallel_py(chk.scratch, "harness.w_codec", jobs)
     return [{"id": j["id"], "kind": "rt", "classes": j["classes"], "top": j["top"], "ev": r["ev"]} for j, r in zip(jobs, res)]
 
